@@ -765,6 +765,12 @@ def mon_outage(session, ev, name, before, out_i, crash_i):
 
 
 def run_C20(res, tier, seed, t_end, bad):
+    # small scope, in full: every assignment of roles to 2 connections (sample of 3) closed back to back, every close/gc pattern
+    Mx.run_cases(res, 'C20', Mx.lifecycle_cases((2,)), tier, seed, t_end, 100, (Mn.mon_track_queue, Mn.mon_pubsub), None, label='lifecycle-2')
+    if not res.findings:
+        Mx.run_cases(res, 'C20', Mx.lifecycle_cases((3,)), tier, seed, t_end, 120, (Mn.mon_track_queue, Mn.mon_pubsub), None, label='lifecycle-3')
+    if res.findings:
+        return
     Cp.run_campaign(res, 'C20', plan_lifecycle(70), budget(tier, 40, 800), seed, None, (mon_outage, Mn.mon_track_queue, Mn.mon_pubsub), deadline=t_end)
     if not res.findings:
         import clientlevel
